@@ -635,6 +635,7 @@ class BladeDict(Mapping):
         """
         if len(grades) == 1 and isinstance(grades[0], tuple):
             grades = grades[0]
+        grades = tuple(sorted(set(grades)))
 
         return {(blade := self.algebra.bin2canon[k]): self[blade]
                 for k in self.algebra.indices_for_grades[grades]}
